@@ -434,28 +434,39 @@ func (h *H) Write(b []byte) error {
 // SendSettings writes a SETTINGS frame and applies the values the peer model
 // needs (initial window for streams the server sends on, our table size, max frame).
 func (h *H) SendSettings(kv [][2]uint32) {
-	_ = h.Write(rawframe.Append(nil, rawframe.Settings, 0, 0, rawframe.SettingsPayload(kv)))
-	h.mu.Lock()
-	for _, s := range kv {
-		switch s[0] {
-		case 4:
-			if s[1] <= 0x7fffffff {
-				delta := int64(s[1]) - h.InitWin
-				h.InitWin = int64(s[1])
-				for id := range h.StreamWin {
-					h.StreamWin[id] += delta
+	// whatever widens what the server may do (a larger window, a larger frame size, a larger table) is booked
+	// before the frame is written, whatever narrows it after: the server acts on the frame at some moment after
+	// the write, and the ledger must never be stricter than the server is entitled to be at that moment
+	apply := func(widen bool) {
+		h.mu.Lock()
+		for _, s := range kv {
+			switch s[0] {
+			case 4:
+				if s[1] <= 0x7fffffff && (int64(s[1]) > h.InitWin) == widen && int64(s[1]) != h.InitWin {
+					delta := int64(s[1]) - h.InitWin
+					h.InitWin = int64(s[1])
+					for id := range h.StreamWin {
+						h.StreamWin[id] += delta
+					}
+				}
+			case 1:
+				if !widen {
+					// the decoder's limit: our decoder accepts size updates up to it; raising it early or late is
+					// equally safe for the encoder's peer, keep the original order
+					h.Dec.SetLimit(s[1])
+					h.xdec.SetAllowedMaxDynamicTableSize(s[1])
+				}
+			case 5:
+				if s[1] >= 16384 && s[1] <= 1<<24-1 && (int64(s[1]) > h.MaxFrame) == widen {
+					h.MaxFrame = int64(s[1])
 				}
 			}
-		case 1:
-			h.Dec.SetLimit(s[1])
-			h.xdec.SetAllowedMaxDynamicTableSize(s[1])
-		case 5:
-			if s[1] >= 16384 && s[1] <= 1<<24-1 {
-				h.MaxFrame = int64(s[1])
-			}
 		}
+		h.mu.Unlock()
 	}
-	h.mu.Unlock()
+	apply(true)
+	_ = h.Write(rawframe.Append(nil, rawframe.Settings, 0, 0, rawframe.SettingsPayload(kv)))
+	apply(false)
 }
 
 // Replenish returns connection-level credit for everything received so far (a
@@ -485,7 +496,9 @@ func (h *H) SendWindowUpdate(id uint32, n uint32) { h.SendWindowUpdateFlags(id, 
 
 // SendWindowUpdateFlags is SendWindowUpdate with (undefined) flag bits set.
 func (h *H) SendWindowUpdateFlags(id uint32, n uint32, flags byte) {
-	_ = h.Write(rawframe.Append(nil, rawframe.WindowUpdate, flags, id, rawframe.U32(n)))
+	// the ledger is credited before the frame is written: the server may answer with DATA before this
+	// goroutine runs again, and the reader must then already see the grant (a grant booked after the write
+	// showed as a non-reproducible "exceeds the window" under load, DESIGN section 10)
 	h.mu.Lock()
 	if id == 0 {
 		h.ConnWin += int64(n)
@@ -493,6 +506,7 @@ func (h *H) SendWindowUpdateFlags(id uint32, n uint32, flags byte) {
 		h.StreamWin[id] += int64(n)
 	}
 	h.mu.Unlock()
+	_ = h.Write(rawframe.Append(nil, rawframe.WindowUpdate, flags, id, rawframe.U32(n)))
 }
 
 // ---- reading ------------------------------------------------------------
